@@ -74,6 +74,11 @@ def main(tier, seed):
              ("release", ["c12-rand", seed + 2, nr, "canary"]),
              ("valgrind", ["c12-rand", seed + 3, nr // 20, "exact"]),
              ("miri", ["c12-rand", seed + 4, 60 if thorough else 15, "exact"])]
+    # the Rust-owned writer when the allocator refuses a growth (fault-injecting global allocator, one scenario per process: the
+    # legitimate outcome on a tree that uses `Vec::reserve` is the allocation-failure abort)
+    for cap0, pre in ((16, 5), (0, 0), (1, 1), (64, 64), (8, 40), (0, 3)):
+        for mode in ("debug", "asan", "valgrind", "miri"):
+            jobs.append((mode, ["c12-oom", cap0, pre]))
     results = rt.run_all(jobs)
     total = rt.judge(chk, results, "C12")
     api_stats = api_leg(chk, tier, seed)
